@@ -76,6 +76,7 @@ struct rm_state_ {
 	void *cb_arg;
 	void (*on_record)(void *arg, const rm_record *r, const unsigned char *plain);
 	void (*on_app)(void *arg, int dir, const unsigned char *data, size_t len);
+	void (*on_hs)(void *arg, int dir, int type, const unsigned char *body, size_t len);
 	/* suite info lookup */
 	int (*suite_info)(unsigned suite, int *enc, int *mac, int *prf);
 	int verbose;
@@ -397,6 +398,7 @@ rm_handshake_bytes(rm_state *st, int dir, const unsigned char *p, size_t len)
 		ml = ((size_t)m[1] << 16) | ((size_t)m[2] << 8) | m[3];
 		if (st->hs_len[dir] < 4 + ml) break;
 		if (st->n_hs[dir] < 64) st->hs_types[dir][st->n_hs[dir] ++] = m[0];
+		if (st->on_hs) st->on_hs(st->cb_arg, dir, m[0], m + 4, ml);
 		if (m[0] == 1 && dir == 0 && ml >= 35) {
 			size_t sl = m[4 + 34];
 			memcpy(st->client_random, m + 4 + 2, 32);
